@@ -237,6 +237,22 @@ def add_arg(text, names, extra, count=None):
     return text, k
 
 
+def r21_ready_macro(text):
+    """R21: `ready!(E)` / `std::task::ready!(E)` / `futures::ready!(E)` -> its expansion
+    `(match E { Poll::Ready(v) => v, Poll::Pending => return Poll::Pending })`"""
+    k = 0
+    while True:
+        m = mask(text)
+        mm = re.search(r"(?<![\w:])(?:(?:std|core)::task::|futures::)?ready!\s*\(", m)
+        if not mm:
+            break
+        op = mm.end() - 1
+        cp = match_close(m, op)
+        text = text[:mm.start()] + "(match %s { Poll::Ready(vx_rdy) => vx_rdy, Poll::Pending => return Poll::Pending })" % text[op + 1:cp].strip() + text[cp + 1:]
+        k += 1
+    return text, k
+
+
 def r3_await(text, arg="Tracked(tr)"):
     return sub(text, r"\.\s*await\b", ".vx_await(%s)" % arg, count=-1, name="R3")
 
@@ -392,7 +408,7 @@ def r10_option_filter(text, count=None):
     return text, k
 
 
-def r10_poll_map_err(text, variant, count=1):
+def r10_poll_map_err(text, variant, count=-1):
     """X.poll_ready(cx).map_err(V) -> three-arm match on Poll (R10, Poll form)."""
     pat = r"((?:[A-Za-z_]\w*)(?:\s*\.\s*[A-Za-z_]\w*)*\s*\.\s*poll_ready\(\s*cx\s*\))\s*\.\s*map_err\(\s*%s\s*\)" % re.escape(variant)
     repl = "(match \\1 { Poll::Ready(Ok(vx_v)) => Poll::Ready(Ok(vx_v)), Poll::Ready(Err(vx_e)) => Poll::Ready(Err(%s(vx_e))), Poll::Pending => Poll::Pending })" % variant
@@ -579,8 +595,10 @@ def r_wrap_calls(text, callee_pat, replacement, count=None):
             break
         op = mm.end() - 1
         cp = match_close(m, op)
-        text = text[:mm.start()] + replacement + text[cp + 1:]
-        pos = mm.start() + len(replacement)
+        # `{args}` in the replacement stands for the original (balanced) argument text
+        rep = replacement.replace("{args}", text[op + 1:cp].strip())
+        text = text[:mm.start()] + rep + text[cp + 1:]
+        pos = mm.start() + len(rep)
         k += 1
     if (count is None and k == 0) or (count is not None and count >= 0 and k != count):
         raise Undecided("wrap-calls %s: %d call sites, expected %s" % (callee_pat, k, count))
@@ -715,6 +733,9 @@ def r17_select(text, count=1):
 
 def apply_rules(text, rules, log, fn):
     """rules: list of tuples (kind, *args)."""
+    text, k21 = r21_ready_macro(text)      # always: a macro Verus does not know, replaced by its documented expansion
+    if k21:
+        log["R21-ready"] = log.get("R21-ready", 0) + k21
     for r in rules:
         kind = r[0]
         if kind == "R1":
